@@ -45,6 +45,13 @@ type vfWrite struct {
 	failed     bool
 }
 
+// vfEvent is one entry of the connection's ordered event log.
+type vfEvent struct {
+	at   time.Duration
+	kind byte // 'B' write begin, 'E' write end, 'C' cancel, 'R' Run returned, 'F' fault injected
+	idx  int  // write index for B/E
+}
+
 // vfConn is a scripted system.Conn for use inside a testing/synctest bubble.
 type vfConn struct {
 	t0     time.Time
@@ -55,6 +62,7 @@ type vfConn struct {
 	mu        sync.Mutex
 	writes    []vfWrite
 	nWrites   int
+	events    []vfEvent       // begin/end of writes and harness markers, in order of occurrence
 	readCalls []time.Duration // instants of ReadFrom calls
 	retAt     time.Duration   // set by the harness: instant the reader returned
 	closedUse int             // reads/writes after the harness marked the conn dead
@@ -97,6 +105,7 @@ func (c *vfConn) WriteTo(m ndp.Message, _ *ipv6.ControlMessage, dst netip.Addr) 
 	idx := len(c.writes)
 	ra, _ := m.(*ndp.RouterAdvertisement)
 	c.writes = append(c.writes, vfWrite{begin: time.Since(c.t0), end: -1, dst: dst, ra: ra})
+	c.events = append(c.events, vfEvent{time.Since(c.t0), 'B', idx})
 	lat, werr := c.latency, c.writeErr
 	c.mu.Unlock()
 
@@ -112,8 +121,22 @@ func (c *vfConn) WriteTo(m ndp.Message, _ *ipv6.ControlMessage, dst netip.Addr) 
 	c.mu.Lock()
 	c.writes[idx].end = time.Since(c.t0)
 	c.writes[idx].failed = err != nil
+	c.events = append(c.events, vfEvent{time.Since(c.t0), 'E', idx})
 	c.mu.Unlock()
 	return err
+}
+
+// mark appends a harness marker to the event log.
+func (c *vfConn) mark(kind byte) {
+	c.mu.Lock()
+	c.events = append(c.events, vfEvent{time.Since(c.t0), kind, -1})
+	c.mu.Unlock()
+}
+
+func (c *vfConn) eventLog() []vfEvent {
+	c.mu.Lock()
+	defer c.mu.Unlock()
+	return append([]vfEvent(nil), c.events...)
 }
 
 func (c *vfConn) snapshot() []vfWrite {
